@@ -537,6 +537,5 @@ Qed.
 Example ex_kml_doc :
   kml_document ex_geod_layer 0 0 0 =
   KmlDoc (-1800, -900, 1800, 900)
-    [(Some (0, 1, 1), (-1800, 0, 0, 1800)); (Some (1, 1, 1), (0, 0, 1800, 1800));
-     (Some (0, 0, 1), (-1800, -1800, 0, 0)); (Some (1, 0, 1), (0, -1800, 1800, 0))].
+    [(Some (0, 0, 1), (-1800, -900, 0, 900)); (Some (1, 0, 1), (0, -900, 1800, 900))].
 Proof. vm_compute. reflexivity. Qed.
